@@ -20,7 +20,7 @@ TECHNIQUE = ("runtime monitoring: relational oracle over observed get_kappa/get_
 RULE = ("for every composition of length <= Lc (quick 10, thorough 12) the delta-maximising arrangement found by "
         "exhaustive search (own enumerator), its reversal, inversion and 3 random arrangements; every charge pattern "
         "of length <= Lp (quick 9, thorough 11) with a random spelling; random class sequences (quick <=120, thorough "
-        "<=400 residues); anchors. distinct = distinct charge pattern; non-trivial = deltaMax != 0 (kappa defined)")
+        "<=400 residues); hill-climbed arrangements for compositions with >= 18 neutrals; anchors. distinct = distinct charge pattern; non-trivial = deltaMax != 0 (kappa defined)")
 EXHAUSTIVE = {"quick": False, "thorough": False}
 EXHAUSTIVE_NOTE = {"quick": "all patterns of length <= 9; maximisers of all compositions of length <= 10",
                    "thorough": "all patterns of length <= 11; maximisers of all compositions of length <= 12"}
@@ -34,10 +34,11 @@ ASSUMPTIONS = [
     "neutral regime it would be reported as a violation",
 ]
 REQUIRED = {"all": ["clamp_observed", "sentinel_observed", "ratio_in_unit_interval", "cached_dmax_path",
-                    "maximiser_cases"]}
+                    "maximiser_cases", "hill_climb_cases_ge18_neutrals"]}
 LC = {"quick": 10, "thorough": 12}
 LP = {"quick": 9, "thorough": 11}
 NRANDOM = {"quick": 1200, "thorough": 5000}
+NCLIMB = {"quick": 32, "thorough": 400}
 RANDOM_HI = {"quick": 120, "thorough": 400}
 ANCHORS = ["EEEEEEEEEEEEEEEEEEKG", "KEEEEK", "EKKKKEE", "GKKKKG", "EKKKGE", "GGSGG", "K", "KKKKKK", "EK",
            "EKEKEKEKEKEKEKEKEKEKEKEKEKEKEKEKEKEKEKEKEKEKEKEKEK",
@@ -56,6 +57,13 @@ def cases(tier, seed):
         for pat in gen.all_patterns(L):
             yield {"k": "pat", "p": M.pat_str(pat)}
     rng = gen.sub_rng(seed, ID, "random")
+    # >= 18 neutral residues: exhaustive search is out of reach, so a hill-climb on delta (own reference) looks for an
+    # arrangement beating the documented family; there a kappa above 1 would be a violation (no known finding applies)
+    for i in range(NCLIMB[tier]):
+        p = rng.randint(1, 8)
+        n = rng.randint(1, 8)
+        z = rng.choice([18, 18, 19, 20, 24, 30, 40])
+        yield {"k": "climb", "c": [p, n, z], "o": rng.randrange(1 << 30)}
     for i in range(NRANDOM[tier]):
         yield {"k": "seq", "s": gen.rand_seq(rng, hi=RANDOM_HI[tier] if i % 5 == 0 else 60), "order": rng.random()}
 
@@ -81,6 +89,31 @@ def true_maximiser(p, n, z):
         if d > best:
             best, arg = d, pat
     return best, arg
+
+
+def hill_climb(p, n, z, rng, iters=3000, restarts=4):
+    """Random-swap hill-climb on the reference delta, started from the family maximiser and from random arrangements."""
+    _, start = M.dmax_family(p, n, z)
+    best = (M.delta_float(start), tuple(start))
+    for r in range(restarts):
+        cur = list(start) if r % 2 == 0 else [1] * p + [-1] * n + [0] * z
+        if r % 2:
+            rng.shuffle(cur)
+        d = M.delta_float(cur)
+        N = len(cur)
+        for _ in range(iters):
+            i, j = rng.randrange(N), rng.randrange(N)
+            if cur[i] == cur[j]:
+                continue
+            cur[i], cur[j] = cur[j], cur[i]
+            d2 = M.delta_float(cur)
+            if d2 >= d:
+                d = d2
+            else:
+                cur[i], cur[j] = cur[j], cur[i]
+        if d > best[0]:
+            best = (d, tuple(cur))
+    return best
 
 
 def observe(rep, S, seq, order_seed):
@@ -183,6 +216,15 @@ def judge(case, rep, S):
         if len(case["s"]) > 60:
             rep.cnt("long_random")
         judge_seq(rep, S, case["s"], case.get("order", 0), "given")
+    elif case["k"] == "climb":
+        p, n, z = case["c"]
+        rng = gen.sub_rng(case["o"], "climb")
+        d, arr = hill_climb(p, n, z, rng)
+        fam = M.dmax_family(p, n, z)[0][0]
+        rep.cnt("hill_climb_cases_ge18_neutrals")
+        if d > fam * (1 + 1e-12):
+            rep.cnt("hill_climb_beats_family")
+        judge_seq(rep, S, gen.spell(rng, arr), case["o"], "hill-climbed arrangement, ratio to family maximum %.6f" % (d / fam if fam else 0))
     elif case["k"] == "pat":
         pat = M.pat_from_str(case["p"])
         seq = gen.spell(gen.sub_rng(0, "spell", case["p"]), pat)
